@@ -9,8 +9,9 @@
 //! variants follow the permuted bytes exactly.
 //!
 //! Judged domain (see `spec().assumptions`): the version characters are judged when
-//! supported_versions is absent, or holds at least one non-GREASE value and only values
-//! 0x0300..=0x0304 besides GREASE; the ALPN characters are judged when there is no ALPN extension,
+//! supported_versions is absent, or holds at least one non-GREASE value and every reading of
+//! "highest" agrees (its numeric maximum is one of 0x0300..=0x0304, or none of its values is: code
+//! 00, TLS 1.3 draft codes included); the ALPN characters are judged when there is no ALPN extension,
 //! or the first protocol has >= 2 bytes and starts and ends with an ASCII alphanumeric.  Everything
 //! else of such hellos is still judged (the unjudged characters are masked).
 
@@ -400,7 +401,7 @@ fn sized_hello(r: &mut Rng, nc: usize, ne: usize, absent_block_if_empty: bool) -
 // ---------------------------------------------------------------------------------- the stages
 
 fn stage_version_grid(ctx: &mut Ctx, env: &mut Env, idx: &mut u64) {
-    let legacy = [0x0300u16, 0x0301, 0x0302, 0x0303, 0x0304, 0x0305, 0x7f1c, 0xfefd, 0x0000, 0xffff];
+    let legacy = [0x0300u16, 0x0301, 0x0302, 0x0303, 0x0304, 0x0305, 0x7f1c, 0x7f17, 0x7f12, 0xfefd, 0x0000, 0xffff];
     let vals = [0x0304u16, 0x0303, 0x0302, 0x0301, 0x0300, 0x0a0a, 0x7f17];
     let mut sv: Vec<Option<Vec<u16>>> = vec![None];
     sv.extend(lists_up_to_3(&vals).into_iter().map(Some));
@@ -430,7 +431,7 @@ fn stage_version_grid(ctx: &mut Ctx, env: &mut Env, idx: &mut u64) {
         }
     }
     ctx.exhaustive(
-        "legacy version in {0300..0305,7f1c,fefd,0000,ffff} x supported_versions absent or any ordered list of length 0..3 over {0304,0303,0302,0301,0300,GREASE,7f17} x SNI on/off x ALPN on/off",
+        "legacy version in {0300..0305,7f1c,7f17,7f12,fefd,0000,ffff} x supported_versions absent or any ordered list of length 0..3 over {0304,0303,0302,0301,0300,GREASE,7f17} x SNI on/off x ALPN on/off",
     );
 }
 
@@ -996,7 +997,7 @@ pub fn spec() -> PropSpec {
         rule: "each ClientHello is generated from a model, encoded to bytes, driven through parse_tls_client_hello (+ generate_ja4/_original), TlsClientHelloReader (one chunk), HuginnNetTls (one TCP segment) and HuginnNet::analyze_tcp, and compared with ref_ja4 computed from the model (independent SHA-256): JA4, JA4_r, JA4_o, JA4_ro, their a/b/c parts, version, SNI, ALPN, cipher/extension/signature-algorithm/group lists; metamorphic: sorted fingerprints invariant under all n! orders (n<=5 quick, n<=6 thorough) and random orders of larger lists and under insertion of every subset of a GREASE sample at every position of five lists, original-order variants follow the permuted order; a bucket is a distinct (stage, version code, supported_versions length, SNI flag, cipher-count class, extension-count class, ALPN characters, sig-alg presence, GREASE presence, extension-block presence) combination",
         assumptions: &[
             "judged hellos are RFC-conformant: one ClientHello handshake message in one TLSPlaintext record of at most 2^14 bytes, record version 0x0300..=0x0304 for the packet-level entry points, no duplicate extension types, extension types with an RFC-defined structure carry well-formed bodies, host names are ASCII, non-empty ALPN / signature_algorithms lists",
-            "version characters and the version field are judged when supported_versions is absent (legacy version other than SSL2 0x0002) or contains at least one non-GREASE value and only values 0x0300..=0x0304 besides GREASE; other lists (empty, all-GREASE, draft/unknown codes) are run with the two version characters masked",
+            "version characters and the version field are judged when supported_versions is absent (legacy version other than SSL2 0x0002) or contains at least one non-GREASE value and either its numeric maximum is one of 0x0300..=0x0304 or none of its values is (draft and unknown codes alone: code 00); other lists (empty, all-GREASE, an unknown code above a known one, DTLS/SSL2 codes) are run with the two version characters masked",
             "the two ALPN characters are judged when there is no ALPN extension or the first protocol has at least 2 bytes and its first and last bytes are ASCII alphanumerics; other first protocols are run with those two characters masked (the published text changed over time); the alpn field is judged only for UTF-8 protocol names",
             "the reported cipher_suites / extensions / signature_algorithms / elliptic_curves lists may be the wire list or the wire list without GREASE (the property text is ambiguous); order and all other values are judged",
             "a signature_algorithms list holding only GREASE values counts as 'no signature algorithms' (GREASE is ignored everywhere)",
